@@ -1,6 +1,7 @@
 package main
 
 import (
+	"bytes"
 	"fmt"
 	"strings"
 
@@ -132,7 +133,10 @@ func doPolygons(c *vkit.Collector, rng *vkit.Rng, k int) {
 	}
 	c.Class("family:" + fam.class)
 	c.Class(fmt.Sprintf("family-size:%d", len(ls)))
-	doNesting(c, rng, pl, fam, ls, true)
+	doNesting(c, rng, pl, fam, ls, true, nil)
+	if len(ls) >= 2 {
+		doHistory(c, rng, pl, fam, ls, k)
+	}
 
 	// a second polygon: a sub-family (shares whole loops with the first), another family, or one loop
 	var other [][]s2.Point
@@ -184,19 +188,34 @@ func doPolygons(c *vkit.Collector, rng *vkit.Rng, k int) {
 		for _, l := range loopsOf(arb.loops) {
 			al = append(al, pl.mk(l))
 		}
-		doNesting(c, rng, pl, arb, al, false)
+		doNesting(c, rng, pl, arb, al, false, nil)
 	}
 }
 
 // doNesting: PolygonFromLoops on a shuffled order; depth = number of enclosing loops; pre-order.
-func doNesting(c *vkit.Collector, rng *vkit.Rng, pl *pool, fam family, ls []*lv, laminarFamily bool) {
+// objs, if not nil, are the loop objects to pass (they may carry stale depths from earlier polygons or
+// from Decode); otherwise fresh copies are made.
+func doNesting(c *vkit.Collector, rng *vkit.Rng, pl *pool, fam family, ls []*lv, laminarFamily bool, objs []*s2.Loop) {
 	n := len(ls)
 	perm := shuffle(rng, n)
 	in := make([]*s2.Loop, n)    // input slice, position = id in the model
 	inLv := make([]*lv, n)
+	stored := []string{}
 	for pos, src := range perm {
-		in[pos] = clone(ls[src])
+		if objs != nil {
+			in[pos] = objs[src]
+		} else {
+			in[pos] = clone(ls[src])
+		}
 		inLv[pos] = pl.mk(in[pos])
+		d := s2.VerifC07LoopDepth(in[pos])
+		if d != 0 {
+			c.Class("nest: input loop with stale depth")
+		}
+		if d < 0 {
+			d = 0
+		}
+		stored = append(stored, fmt.Sprintf("%d%%nat", d))
 	}
 	// ContainsNested matrix, recorded before construction
 	rows := []string{}
@@ -224,7 +243,7 @@ func doNesting(c *vkit.Collector, rng *vkit.Rng, pl *pool, fam family, ls []*lv,
 	key := fmt.Sprintf("nest %s %v %v", fam.class, perm, coords(ls[0].pts))
 	c.Eval(key, n > 1)
 	c.Check(fmt.Sprintf("nest %s n=%d perm=%v", fam.class, n, perm),
-		vkit.App("nest_check", "["+strings.Join(rows, "; ")+"]", fmt.Sprintf("%d%%nat", n), "(["+strings.Join(exp, "; ")+"] : list (nat * nat))"))
+		vkit.App("nest_check", "["+strings.Join(rows, "; ")+"]", fmt.Sprintf("%d%%nat", n), "["+strings.Join(stored, "; ")+"]", "(["+strings.Join(exp, "; ")+"] : list (nat * nat))"))
 	if !laminarFamily {
 		return
 	}
@@ -234,9 +253,26 @@ func doNesting(c *vkit.Collector, rng *vkit.Rng, pl *pool, fam family, ls []*lv,
 		lo = append(lo, coords(l.pts))
 	}
 	replay["loops_in_input_order"] = lo
+	replay["stored_depths_before"] = stored
 	if len(order) != n {
 		c.Violate("Polygon.initNested.count", "PolygonFromLoops lost or duplicated a loop", replay)
 		return
+	}
+	// the assembled polygon is well formed: accepted by Validate, non-empty bound, hasHoles = some odd depth
+	if err := p.Validate(); err != nil {
+		c.Violate("Polygon.initNested.validate", fmt.Sprintf("Validate rejects a polygon built from a laminar family of valid loops: %v (%s)", err, fam.class), replay)
+	}
+	if p.RectBound().IsEmpty() {
+		c.Violate("Polygon.initNested.bound", "non-empty polygon has an empty bound ("+fam.class+")", replay)
+	}
+	anyOdd := false
+	for _, d := range depth {
+		if d%2 == 1 {
+			anyOdd = true
+		}
+	}
+	if s2.VerifC07PolygonHasHoles(p) != anyOdd {
+		c.Violate("Polygon.initNested.hasHoles", fmt.Sprintf("hasHoles=%v but some loop has odd depth: %v (%s)", s2.VerifC07PolygonHasHoles(p), anyOdd, fam.class), replay)
 	}
 	// independent depth: number of other loops containing a private vertex
 	pos := map[int]int{}
@@ -406,4 +442,100 @@ func doPolygonPair(c *vkit.Collector, rng *vkit.Rng, pl *pool, P, O *s2.Polygon,
 			viol("Polygon.Intersects.refl", "non-empty X does not intersect itself", x.name, x.name)
 		}
 	}
+}
+
+// decodedCopy round-trips a loop through Encode/Decode (the depth field travels along).
+func decodedCopy(l *s2.Loop) *s2.Loop {
+	var buf bytes.Buffer
+	if err := l.Encode(&buf); err != nil {
+		return nil
+	}
+	out := new(s2.Loop)
+	if err := out.Decode(&buf); err != nil {
+		return nil
+	}
+	return out
+}
+
+// doHistory: loops that have already served in a polygon (and so carry its depths) are re-used —
+// the same *Loop, and copies obtained by Encode/Decode — alone and inside other sub-families, i.e.
+// in different nesting positions. Every polygon so constructed must be as if built from fresh loops.
+func doHistory(c *vkit.Collector, rng *vkit.Rng, pl *pool, fam family, ls []*lv, k int) {
+	n := len(ls)
+	used := make([]*s2.Loop, n)
+	for i := range ls {
+		used[i] = clone(ls[i])
+	}
+	first := s2.PolygonFromLoops(append([]*s2.Loop{}, used...)) // stamps the depths
+	holes := 0
+	decoded := make([]*s2.Loop, n)
+	enc := make([][]byte, n) // the loops as encoded while members of [first]: depth included
+	for i := range used {
+		if used[i].IsHole() {
+			holes++
+		}
+		var buf bytes.Buffer
+		if err := used[i].Encode(&buf); err != nil {
+			return
+		}
+		enc[i] = buf.Bytes()
+		decoded[i] = decodeLoop(enc[i])
+		if decoded[i] == nil {
+			return
+		}
+	}
+	if holes > 0 {
+		c.Class("history: family with holes re-used")
+	}
+	// the other operand for the laws: a multi-loop polygon (fresh copy of the whole family), and two shells
+	whole := clonePolygon(first)
+	far := s2.Point{Vector: ls[0].pts[0].Mul(-1)}
+	twoShells := s2.PolygonFromLoops([]*s2.Loop{clone(ls[rng.Intn(n)]), s2.LoopFromPoints(regularPts(far, 3, 5))})
+	for i := 0; i < n; i++ {
+		for v, obj := range []*s2.Loop{decoded[i], used[i]} {
+			name := []string{"decoded copy", "same *Loop"}[v]
+			one := family{loops: [][]s2.Point{fam.loops[i]}, class: "history/" + name + " of a former member, alone"}
+			c.Class(one.class)
+			staleHole := obj.IsHole()
+			// (obj keeps its stale depth until PolygonFromLoops sees it)
+			doNesting(c, rng, pl, one, []*lv{ls[i]}, true, []*s2.Loop{obj})
+			if staleHole && (i+k)%2 == 0 {
+				// relations of such a single-loop polygon against multi-loop polygons
+				q := s2.PolygonFromLoops([]*s2.Loop{decodeLoop(enc[i])})
+				other := whole
+				if rng.Bool() {
+					other = twoShells
+				}
+				doPolygonPair(c, rng, pl, q, other, one.class, false)
+			}
+		}
+	}
+	// sub-families in other nesting positions, built from loops carrying the depths of [first]
+	for t := 0; t < 2; t++ {
+		var subLs []*lv
+		var subObj []*s2.Loop
+		var subPts [][]s2.Point
+		for i := 0; i < n; i++ {
+			if rng.Bool() {
+				cp := decodeLoop(enc[i]) // carries the depth it had in [first]
+				subLs = append(subLs, ls[i])
+				subObj = append(subObj, cp)
+				subPts = append(subPts, fam.loops[i])
+			}
+		}
+		if len(subLs) == 0 {
+			continue
+		}
+		sf := family{loops: subPts, class: "history/sub-family of former members"}
+		c.Class(sf.class)
+		doNesting(c, rng, pl, sf, subLs, true, subObj)
+	}
+}
+
+func decodeLoop(b []byte) *s2.Loop {
+	out := new(s2.Loop)
+	if err := out.Decode(bytes.NewReader(b)); err != nil {
+		return nil
+	}
+	return out
 }
